@@ -326,6 +326,7 @@ class Gen:
         if loops_ins:
             loops = find_loops(src, lo_tok, hi_tok)
             for n, txt in loops_ins.items():
+                n = resolve_loop(loops, n)
                 if n >= len(loops):
                     raise LostAnchor('loop %d not found' % n)
                 inserts.append((src.toks[loops[n][3]].start, '\n' + txt + '\n'))
@@ -383,6 +384,7 @@ class Gen:
                 # R4c: in the enclosing function the n-th loop is replaced by a call to its summary function, whose
                 # contract is the fold of the (separately verified) body contract over the items (A-iter)
                 loops = find_loops(src, lo_tok, hi_tok)
+                n = resolve_loop(loops, n)
                 if n >= len(loops):
                     raise LostAnchor('loopstub: loop %d not found' % n)
                 kwtok, kind, hdr, bopen = loops[n]
@@ -448,7 +450,8 @@ class Gen:
         for (ln, raw) in block:
             s = raw.strip()
             if s.startswith('//@loop') and not s.startswith('//@loopstub'):
-                n = int(s.split()[1])
+                n = s.split()[1]
+                n = int(n) if n.isdigit() else n      # ordinal or `hdr:TEXT`
                 loops[n] = []
                 cur = loops[n]
             elif s.startswith('//@closurespec'):
@@ -465,8 +468,9 @@ class Gen:
                 self_closures.append(['dropfn', 0, s.split()[1]])
                 cur = []
             elif s.startswith('//@loopstub'):
-                m = re.match(r'//@loopstub\s+(\d+)\s+(.*)$', s)
-                self_closures.append(['loopstub', int(m.group(1)), m.group(2)])
+                m = re.match(r'//@loopstub\s+(\d+|hdr:\S+)\s+(.*)$', s)
+                sel = m.group(1)
+                self_closures.append(['loopstub', int(sel) if sel.isdigit() else sel, m.group(2)])
                 cur = []
             elif s.startswith('//@proof'):
                 m = re.match(r'//@proof\s+(\d+)\s+(.*)$', s)
@@ -973,6 +977,8 @@ class Gen:
             if not cand:
                 raise LostAnchor('loopbody after=%r: no loop follows in %s' % (kw['after'], selector))
             n = cand[0]
+        elif kw.get('loop', 'hdr') == 'hdr':
+            n = resolve_loop(loops, 'hdr:' + kw['hdr'])
         else:
             n = int(kw['loop'])
         if n >= len(loops):
@@ -1015,7 +1021,12 @@ class Gen:
         # label (`labels=L1:EXPR1,L2:EXPR2`): the caller-side meaning of each label is part of the summary that replaces the loop
         labels = dict(x.split(':', 1) for x in kw['labels'].replace('~', ' ').split(',')) if 'labels' in kw else {}
         inner_all = find_loops(src, bopen, src.match[bopen])
-        stubbed = [(inner_all[n][0], src.match[inner_all[n][3]]) for (n, needle, _t) in proofs if needle == '@loopstub' and n < len(inner_all)]
+        stubbed = []
+        for (n_, needle, _t) in proofs:
+            if needle == '@loopstub':
+                k_ = resolve_loop(inner_all, n_)
+                if k_ < len(inner_all):
+                    stubbed.append((inner_all[k_][0], src.match[inner_all[k_][3]]))
         for k in range(bopen + 1, src.match[bopen]):
             if any(a <= k <= b for a, b in stubbed):
                 continue   # inside a loop that is replaced by its summary
@@ -1044,6 +1055,17 @@ class Gen:
             f.write('\n'.join(self.out) + '\n')
         with open(path + '.map.json', 'w') as f:
             json.dump({'map': self.map, 'blocks': self.blocks}, f)
+
+
+def resolve_loop(loops, sel):
+    """loop selector: an ordinal, or `hdr:TEXT` = the unique loop whose header contains TEXT (whitespace-insensitive, ~ = space)"""
+    if isinstance(sel, int):
+        return sel
+    want = norm(sel[4:].replace('~', ' '))
+    cand = [i for i, l in enumerate(loops) if want in norm(l[2])]
+    if len(cand) != 1:
+        raise LostAnchor('loop selector %r matches %d loops' % (sel, len(cand)))
+    return cand[0]
 
 
 def impl_to_generic(head, name):
